@@ -105,6 +105,33 @@ def multipart_bodies(L, tier):
     out.extend(state_bodies())
     if L == 16:
         out.extend(misc_bodies())
+        out.extend(order_bodies(T))
+    return out
+
+
+ORDER_M = 64        # max_form_memory_size for the part-order layouts (the 61-byte file header block fits)
+
+
+def order_bodies(thorough=False):
+    """Part-ORDER layouts: every sequence of <= 3 parts over {small field, field of M+1, field of 3M, small file,
+    large file}.  A field larger than max_form_memory_size must be refused wherever it stands (before / after /
+    between files), and max_form_parts must count parts of every kind in every order."""
+    import itertools
+    M = ORDER_M
+    kinds = {
+        "f": lambda i: fld(b"a%d" % i, b"v"),
+        "x": lambda i: fld(b"a%d" % i, b"x" * (M + 1)),
+        "X": lambda i: fld(b"a%d" % i, b"x" * (3 * M)),
+        "F": lambda i: fil(b"u%d" % i, b"w", None),
+        "G": lambda i: fil(b"u%d" % i, b"y" * (3 * M), None),
+    }
+    out = []
+    for k in (1, 2, 3):
+        for seq in itertools.product("fxXFG", repeat=k):
+            if k == 3 and not thorough and sum(c in "XG" for c in seq) > 1:
+                continue            # quick: at most one of the two large (3M) kinds in a 3-part layout
+            parts = [kinds[c](i) for i, c in enumerate(seq)]
+            out.append(("order:" + "".join(seq), tuple(parts), c01.build_body(parts, B)))
     return out
 
 
@@ -593,8 +620,11 @@ def units(tier):
             n = len(body)
             np_ = nparts(parts) if parts is not None else 1
             tiny = descr.startswith("tiny")
-            if (tiny or descr.startswith(("state:", "nodelim:part-without"))) and L != P["Ls"][0]:
+            if (tiny or descr.startswith(("state:", "order:", "nodelim:part-without"))) and L != P["Ls"][0]:
                 continue                      # these bodies do not depend on L
+            if descr.startswith("order:"):
+                us.append(("P", L, bi, ORDER_M))
+                continue
             if descr.startswith("state:"):
                 for mfms in STATE_M:
                     us.append(("D", L, bi, mfms, None))
@@ -646,6 +676,10 @@ def form_bodies(L):
         out.append(("tiny*0", "multipart/form-data; boundary=bnd", b0, (exp_form(p0), 0, 0)))
         pc, bc = mb["tiny:charset"]
         out.append(("tiny:charset", "multipart/form-data; boundary=bnd", bc, (exp_form(pc), 1, 2)))
+        for lay in ("order:Fx", "order:FFx", "order:fFx", "order:FxF", "order:xF"):
+            pl, bl = mb[lay]
+            out.append((lay, "multipart/form-data; boundary=bnd", bl,
+                        (exp_form(pl), nparts(pl), biggest_field(pl), (ORDER_M,))))
         # content that is not form data: nothing is parsed and (apart from get_data) nothing is read
         out.append(("notform:text/plain", "text/plain", b3, ("none-parsed", None, 0)))
         out.append(("notform:empty-ctype", "", b3, ("none-parsed", None, 0)))
@@ -700,7 +734,12 @@ def run_unit(unit, R, tier):
                                                  "wellformed": parts is not None})
             else:
                 shorts = set(P["short_bs"](L, n))
-                for bs in range(1, n + 2):
+                bs_list = range(1, n + 2)
+                if descr.startswith("order:"):
+                    # chunks that fit the decoder's buffer check (and a few that do not); short reads at 7 and M
+                    bs_list = list(range(1, ORDER_M + 9)) + [n, n + 1]
+                    shorts = {7, ORDER_M} if n <= 400 else set()
+                for bs in bs_list:
                     got, src = parse_with(body, bs, mfms, max_parts, {})
                     R.count("executions")
                     R.count("parser_runs")
@@ -788,7 +827,7 @@ def run_unit(unit, R, tier):
 def finalize(R, tier):
     need = {"family:field", "family:file", "family:tiny", "family:preamble", "family:bigheader", "family:nodelim",
             "family:two-fields", "D:ok", "D:RETL", "D:EXC", "D:receive-RETL", "P:ok", "P:RETL", "P:EXC",
-            "F:ok", "F:RETL", "F:url", "F:multipart", "F:declared-length-lies", "family:state", "F:via-request-cached", "F:via-request-instance",
+            "F:ok", "F:RETL", "F:url", "F:multipart", "F:declared-length-lies", "family:state", "family:order", "F:via-request-cached", "F:via-request-instance",
             "F:via-parser-not-silent", "F:via-request-get-data-parse", "F:via-parser-parse-direct", "F:notform", "F:ill", "F:mcl-none", "F:mcl-small", "F:mcl-exact", "F:mcl-large"}
     missing = need - R.used
     if missing:
